@@ -31,6 +31,7 @@ import (
 	"os"
 	"sort"
 	"strings"
+	"sync"
 
 	"github.com/ohler55/slip"
 	"verif/harness/lib"
@@ -1267,9 +1268,31 @@ func runC05(c *lib.Ctx) {
 		for i, cs := range batch {
 			reqs[i] = cs.request()
 		}
-		replies := c.Model(reqs)
+		// the model driver is a separate, stateless process: run it on four slices of the batch
+		// concurrently while the implementation is evaluated here (sequentially: interpreter state
+		// is process-global); results are joined by index, so the outcome does not depend on timing
+		const parts = 4
+		replies := make([]string, len(reqs))
+		var wg sync.WaitGroup
+		for p := 0; p < parts; p++ {
+			lo, hi := p*len(reqs)/parts, (p+1)*len(reqs)/parts
+			wg.Add(1)
+			go func(lo, hi int) {
+				defer wg.Done()
+				copy(replies[lo:hi], c.Model(reqs[lo:hi]))
+			}(lo, hi)
+		}
+		type implOut struct {
+			reply, msg     string
+			mutated, fault bool
+		}
+		impls := make([]implOut, len(batch))
 		for i, cs := range batch {
-			impl, mutated, fault, msg := c05Impl(cs)
+			impls[i].reply, impls[i].mutated, impls[i].fault, impls[i].msg = c05Impl(cs)
+		}
+		wg.Wait()
+		for i, cs := range batch {
+			impl, mutated, fault, msg := impls[i].reply, impls[i].mutated, impls[i].fault, impls[i].msg
 			model := replies[i]
 			nontrivial := false
 			for _, a := range cs.args {
